@@ -168,7 +168,8 @@ class Ref:
           for x in v.get('l', v.get('t', v.get('set'))):
             walk(x)
         elif 'd' in v:
-          for _, x in v['d']:
+          for k, x in v['d']:     # what sits in a key is looked at like what sits in a value
+            walk(k)
             walk(x)
       out.append(v)
     for v in self.config.values():
